@@ -3,6 +3,10 @@
 //!   `gamma x` | `lngamma x` | `digamma x` | `erf x` | `beta a b`            -> `= y`
 //!   `gammav n x1 … xn` (same for lngammav, digammav, erfv)                   -> `= y1 … yn`
 //!   `betav n a1 b1 … an bn`                                                  -> `= y1 … yn`
+//!   `erfsweep b0 n [dump-path]`: for the `n` consecutive f32 bit patterns `b0 ..` (non-negative finite floats `x`) evaluates
+//!   `erf(x)` and `erf(-x)`; reply `= <order-independent 64-bit checksum of all 2n result bits> n <#x with erf(-x) != -erf(x) bitwise>
+//!   <#x with |erf(±x)| > 1> <first bad bit pattern or ->`; with a dump path the `n` values `erf(x)` are also written
+//!   there as little-endian f64 (for the exhaustive accuracy oracle; the model ignores the path).
 //! `digamma` recurses once per unit step below 6, so requests with x < -100000 (or -inf) are refused as
 //! `! diverged` here and in the model (the real function would overflow the stack / never return).
 //! `erf(NaN)` recurses forever (`x >= 0.` and `-x >= 0.` are both false) until the stack overflows and the process
@@ -73,6 +77,56 @@ fn step(_: &mut (), t: &mut Toks) -> R<String> {
                 });
             }
             Ok(ok(show_fs(&ys)))
+        }
+        "erfsweep" => {
+            let b0 = t.u64()?;
+            let n = t.u64()?;
+            let path = t.tok().ok();
+            t.end()?;
+            if b0 + n > 0x7f80_0000 {
+                return Err(BadOp); // finite non-negative f32 only
+            }
+            let mut h: u64 = 0;
+            let (mut odd_bad, mut bound_bad, mut first) = (0u64, 0u64, None);
+            let mut buf: Vec<u8> = Vec::with_capacity(if path.is_some() { 8 * n as usize } else { 0 });
+            for k in 0..n {
+                let bits = (b0 + k) as u32;
+                let x = f32::from_bits(bits) as f64;
+                let y = erf(x);
+                let yn = erf(-x);
+                // checksum: wrapping sum of position-keyed mixes (order independent, so the model may evaluate in parallel)
+                let key = (bits as u64 + 1).wrapping_mul(0x9E37_79B9_7F4A_7C15);
+                h = h
+                    .wrapping_add((y.to_bits() ^ key).wrapping_mul(0xBF58_476D_1CE4_E5B9))
+                    .wrapping_add((yn.to_bits() ^ key.rotate_left(32)).wrapping_mul(0x94D0_49BB_1331_11EB));
+                let mut bad = false;
+                if yn.to_bits() != (-y).to_bits() {
+                    odd_bad += 1;
+                    bad = true;
+                }
+                if !(y.abs() <= 1.0) || !(yn.abs() <= 1.0) {
+                    bound_bad += 1;
+                    bad = true;
+                }
+                if bad && first.is_none() {
+                    first = Some(bits);
+                }
+                if path.is_some() {
+                    buf.extend_from_slice(&y.to_le_bytes());
+                }
+            }
+            if let Some(p) = path {
+                let pp = std::path::Path::new(p);
+                if let Some(dir) = pp.parent() {
+                    let _ = std::fs::create_dir_all(dir);
+                }
+                std::fs::write(pp, &buf).map_err(|_| BadOp)?;
+            }
+            let f = match first {
+                Some(b) => format!("{:08x}", b),
+                None => "-".to_string(),
+            };
+            Ok(ok(format!("{:016x} {} {} {} {}", h, n, odd_bad, bound_bad, f)))
         }
         "betav" => {
             let n = t.usize()?;
